@@ -134,6 +134,14 @@ CHECKS = {
              "gets one of the two verdicts (extracted checker) and is compared with flex's 'rule cannot be matched' / -s warnings; -w "
              "must silence them without changing the scanner byte for byte.",
         design="DESIGN.md section 6 C17", technique="machine-checked proof (Rocq): closure checker soundness + witnesses confirmed by the proved scanner"),
+    "C18": dict(
+        text="PARTIAL. Rocq theorem C18_emitted_tables_independent_of_fresh_memory (coq/Determinism.v): for EVERY sequence of operations on "
+             "the generator's transition store (grow, make an entry, rewrite an owned entry, give an entry up) the emitted nxt/chk table is the "
+             "same for any two contents of freshly allocated memory - it rests on the 'chk[i] == 0 ||' guard of gentabs(), as "
+             "C18_unguarded_emission_would_leak shows. Byte identity of complete outputs (scanner, header, tables file) is decided by "
+             "repeated runs of the rebuilt flex under perturbed allocators and environments, -o against -t, valgrind's definedness "
+             "checker on a sample, and the stage1/stage2 bootstrap comparison - these runs are exploration, not proof.",
+        design="DESIGN.md section 6 C18", technique="machine-checked non-interference proof (Rocq) for the transition store + differential runs under perturbed allocators"),
 }
 
 NOT_YET = {
